@@ -141,6 +141,48 @@ CHECKS = {
         technique="TLA+ symbolic digest model + TLC invariants/action properties; transition replay with hashlib recomputation as abstraction function",
         design="5/C09",
     ),
+    "C15": dict(
+        engine="ConfigMachine",
+        text="TLC checks C15_Error (every rejection of a value for a declared field - any type or shape of value - is the "
+        "library's ValidationError and names a declared path below the assignment's target: item index for configurations in "
+        "lists, key for typed-dict entries) on ConfigMachine; the conformance step compares ValidationError.ref_path of every "
+        "rejected attribute/dotted assignment, constructor keyword, tree load and list append/extend with the path the "
+        "specification computes from the containment structure, and the exception class; the trace direction checks the class "
+        "for random values of every shape.",
+        note="Bounded instance MC_Config/SchemaA with nested schemas, a config type, lists of schemas and of config types (equal "
+        "items), typed dicts at three positions; unknown keys, read-only virtual fields and container index/key errors are outside "
+        "the statement; the index reported for an item rejected by insert()/item assignment is left free.",
+        technique="TLA+ error-path model over the containment structure + TLC invariant; replay compares ref_path and exception class",
+        design="5/C15",
+    ),
+    "C19": dict(
+        engine="CincoSave",
+        text="TLC checks C19_Untouched, C19_Exact, C19_LoadsBack, C19_SerialiseThenOpen and C19_FaultRaises exhaustively on "
+        "CincoSave.tla, a program-counter model of Config.save (resolve format, encode each field, open key file / encrypt, "
+        "formatter dump, open destination for writing, write, close) with a fault injected at every step, over field kinds x "
+        "formats x key-file states x pairs of faults and repeated saves; every behaviour TLC enumerates is executed on the real "
+        "library with faults injected from outside (faulting field/format subclasses, wrong-size key file, out-of-domain "
+        "values) while builtins.open/os.open/os.replace are wrapped and the destination bytes are read at every observed step; "
+        "seeded random save scripts are replayed by Trace_CincoSave.tla.",
+        note="Third-party encoders are channels with a domain predicate; faults of the destination's own open/write/close (disk "
+        "full) are outside the quantifier; equality after load is modulo the two normalisations C02 names.",
+        technique="TLA+ step machine with fault injection at every program point + TLC; behaviour replay with outside fault injection; TLC trace validation",
+        design="5/C19",
+    ),
+    "C20": dict(
+        engine="CincoStubs",
+        text="TLC checks C20_Valid, C20_Complete, C20_Quiet and the action properties C20_ReturnedMC / C20_NoSideEffectMC on "
+        "CincoStubs.tla (generate_stub and get_method_annotation transcribed down to parameter-list tokens, plus a transcription "
+        "of Python's parameter grammar that reads them back) over schema descriptors with all 19 field classes, typed "
+        "containers, nested schemas, config types, virtual fields and instance methods with every parameter and annotation "
+        "kind; each case is run on real objects (functions compiled from the signature descriptor), the stub text is parsed "
+        "with ast and compile() and abstracted to the same record, schema/config/stdout are snapshotted before and after; "
+        "random wider schemas are replayed by Trace_Stubs.tla.",
+        note="ast.parse + compile() is the syntax oracle; exact annotation strings are compared as drift only; keys that are "
+        "Python keywords or 'self' are outside the quantifier (identifier keys).",
+        technique="TLA+ transcription of stub generation + parameter grammar, TLC invariants; case replay with ast abstraction; TLC trace validation",
+        design="5/C20",
+    ),
 }
 
 PENDING_REASON = "check not built yet in this round (planned, see DESIGN.md section 5); nothing is claimed for it"
